@@ -952,7 +952,7 @@ class FPNum:
         
         if (e == 0):
             # subnormal numbers
-            e = -16
+            e = -14
             m = m
         else:
             e = e - 15            
